@@ -32,9 +32,14 @@ pub enum Construct {
     TargetContent,
     /// text after the target
     TextAfter,
+    /// the target <div> contains <span>s nested `run / 100` levels deep (a tag name outside the filters' paths: the statement's
+    /// precondition is that each element of a path occurs once)
+    DeepNesting,
+    /// the target <div> contains `run / 50` sibling <span> elements, each with a void and a self-closing child
+    ManyChildren,
 }
 
-pub const CONSTRUCTS: [Construct; 11] = [
+pub const CONSTRUCTS: [Construct; 13] = [
     Construct::TextBefore,
     Construct::TextWithLt,
     Construct::AttrOnPath,
@@ -46,6 +51,8 @@ pub const CONSTRUCTS: [Construct; 11] = [
     Construct::Textarea,
     Construct::TargetContent,
     Construct::TextAfter,
+    Construct::DeepNesting,
+    Construct::ManyChildren,
 ];
 
 #[derive(Clone, Debug, Serialize, Deserialize)]
@@ -101,6 +108,14 @@ pub fn doc(c: Construct, n: usize) -> Doc {
         Construct::Textarea => d.pre = format!("<textarea>{}</textarea>", filler(n, "text <div>area</div> ")),
         Construct::TargetContent => d.div_inner = filler(n, "<p class=\"z\">some words</p>\n"),
         Construct::TextAfter => d.post = format!("<pre>{}</pre>", filler(n, "trailing line 0123456789\n")),
+        Construct::DeepNesting => {
+            let depth = (n / 100).max(2);
+            d.div_inner = format!("{}core{}", "<span class=\"n\">".repeat(depth), "</span>".repeat(depth));
+        }
+        Construct::ManyChildren => {
+            let k = (n / 50).max(2);
+            d.div_inner = "<span>s<br><img src=x/></span>".repeat(k);
+        }
     }
     d
 }
@@ -210,6 +225,8 @@ pub fn check_case(prop: &str, case: &Case) -> Vec<(String, String)> {
         Construct::Textarea => "text <div>area</div> ",
         Construct::TargetContent => "<p class=\"z\">some words</p>\n",
         Construct::TextAfter => "trailing line 0123456789\n",
+        Construct::DeepNesting => "<span class=\"n\">",
+        Construct::ManyChildren => "<span>s<br><img src=x/></span>",
     }).as_bytes()[..8]).unwrap_or(0);
     for sched in schedules(body.len(), unit_pos, case.run) {
         crate::common::beat();
